@@ -597,6 +597,7 @@ class BinStream:
     def __init__(self, chk, xvc, model, builtin, always_sets):
         self.chk, self.xvc, self.model, self.builtin = chk, xvc, model, builtin
         self.always = always_sets
+        self.wired = []          # sources whose switch get_xvc_config_params reads (translator)
         self.n = 0
         self.sb = None
 
@@ -981,6 +982,7 @@ def run(chk: Check):
 
     # ------------------------------------------------------------------ binary stream
     bs = BinStream(chk, xvc, model if have_model else None, builtin, ex.get('wiring', {}).get('cli_always_sets', []))
+    bs.wired = wired
     nbin = 40 if quick else 400
     bcases = gen_binary(chk.rng, nbin, inp.alias)
     st = chk.tie['streams'].setdefault('binary', {'cases': 0, 'runs': 0, 'disagreements': 0, 'oracle_failures': 0, 'judged': 0})
@@ -1038,7 +1040,9 @@ def run(chk: Check):
 
 
 def signature_binary(bs, ops, obs, alias):
-    """attribute a binary-level failure: which single deviation from the property explains the observation"""
+    """attribute a binary-level failure: which single deviation from the property explains the observation.
+    `switch-ignored` also records the static fact whether get_xvc_config_params reads the switch (translator table):
+    the known finding K5a matches only switches that are NOT read, so a wired switch that is ignored is a violation."""
     sw = []
     for l in ops:
         if l.startswith('sw '): sw = [x for x in l.split(' ')[1:] if x]
@@ -1047,7 +1051,7 @@ def signature_binary(bs, ops, obs, alias):
         if s in ('project', 'local'):
             want, msgs = bs.oracle(ops, obs, honoured=set(sw) - {s})
             if want is not None and not msgs:
-                return {'kind': 'switch-ignored', 'switch': SWITCH_OF[s]}
+                return {'kind': 'switch-ignored', 'switch': SWITCH_OF[s], 'read_by_get_xvc_config_params': s in bs.wired}
     # K5b: explained by system file == user file
     if alias:
         want, msgs = bs.oracle(ops, obs, same_file=True)
@@ -1077,6 +1081,7 @@ def replay(chk: Check, data):
         else:
             if bs is None:
                 bs = BinStream(chk, chk.build_xvc(), None, builtin, [])
+                bs.wired = [{'localp': 'local'}.get(w[0], w[0]) for w in ex['wiring']['wiring']]
             ob = bs.execute(case['ops'])
             want, msgs = bs.oracle(case['ops'], ob)
             print('argv:', ob['argv'], 'env:', ob['env'])
